@@ -213,6 +213,7 @@ func (r *Router) Start() {
 	// Any incoming connection waits for the remote server identity
 	// and will create a new handling routine.
 	err := r.host.Listen(func(c Conn) {
+		verifAt("router.accepted", r, c)
 		dst, err := r.receiveServerIdentity(c)
 		if err != nil {
 			if !strings.Contains(err.Error(), "EOF") {
@@ -389,6 +390,7 @@ func (r *Router) connect(si *ServerIdentity) (Conn, uint64, error) {
 		return nil, sentLen, xerrors.Errorf("register connection: %v", err)
 	}
 
+	verifAt("router.registered", r, si, c)
 	if err = r.launchHandleRoutine(si, c); err != nil {
 		closeRefused(c)
 		return nil, sentLen, xerrors.Errorf("handling routine: %v", err)
